@@ -473,6 +473,8 @@ class RefDevice:
             # an altered copy of the response follows it (picked up by the next exchange's drain)
             msgs.append(self._mutate(resp_pkts[-1], d["post_mutated"]))
             conn.state["desync"] = True
+            if d.get("then_authentic"):
+                msgs.append(orig0 if orig0 is not None else resp_pkts[-1])     # and an intact copy after it
         honest = not any(d.get(k) for k in ("raw", "mutate", "mutate_inner", "byz", "app", "flood"))
         if not honest:
             conn.state["desync"] = True     # hostile bytes may have broken the stream framing
